@@ -28,6 +28,11 @@ def build(tier, rng, work):
                     sn["reference"] = [list(e) for e in ref]
                     sn["hasreference"] = True
                     graphs.append(sn)
+    # generated suites: eager reference, then the graphs real lazy traversals end with
+    graphs += PP.gen_lazy_graphs(rng, 2 if tier == "quick" else 12, 3 if tier == "quick" else 6, work)
+    # the handcrafted suite whose producer group uses a vm its dependant does not (known finding F-C09-1)
+    from ..parse import gensuite as G
+    graphs += PP.gen_lazy_graphs(rng, 1, 2 if tier == "quick" else 6, work, fixed=G.EXTRA_VM_PRODUCER)
     return graphs
 
 
@@ -35,4 +40,4 @@ def run(tier, seed):
     return PP.generic(PID, tier, seed, {"C09"}, build,
                       "eager parses (bridging, per-worker equivalence), repeated parses (determinism) and graphs after real lazy traversals under "
                       "random schedules (lazy = eager, everything expanded), validated by TLC against GraphParse",
-                      ["selections and worker sets of the shipped sample suite"])
+                      ["selections and worker sets of the shipped sample suite, plus generated suites (random setup DAGs on the shipped base)"])
